@@ -229,4 +229,10 @@ impl TlsListener {
             ClientRandomExtraction::NeedMoreData => Err(()),
         }
     }
+
+    /// What the listener holds after peeking at the first flight: (bytes buffered, client random)
+    pub(crate) async fn verif_prebuffer(stream: TcpStream) -> io::Result<(usize, Option<Vec<u8>>)> {
+        let (stream, client_random) = Self::read_client_random_and_wrap_stream(stream).await?;
+        Ok((stream.prebuffer.len(), client_random))
+    }
 }
